@@ -283,7 +283,8 @@ int driver_run(const FnTable *t, ParsedPacket *pp, const uint8_t *script, size_t
             uint8_t sec = *p++;
             c.target = *p++;
             c.stop_after = *p++;
-            c.ops_len = *p++;
+            c.ops_len = (size_t) p[0] | ((size_t) p[1] << 8);
+            p += 2;
             c.ops = p;
             p += c.ops_len;
             c.counter = 0;
